@@ -342,6 +342,6 @@ func (s *crossState) run() (lost int, err error) {
 }
 
 func init() {
-	pbt.Register(pbt.Sub[Cross]{Name: "crosstalk-mem", Weight: 0.04, Gen: genCross([]string{"memPacket", "memPacket", "memTCP"}), Check: checkCross})
-	pbt.Register(pbt.Sub[Cross]{Name: "crosstalk-real", Weight: 0.04, Gen: genCross([]string{"realUDP", "realUDP", "realTCP"}), Check: checkCross})
+	pbt.Register(pbt.Sub[Cross]{Name: "crosstalk-mem", Weight: 0.1, Gen: genCross([]string{"memPacket", "memPacket", "memTCP"}), Check: checkCross})
+	pbt.Register(pbt.Sub[Cross]{Name: "crosstalk-real", Weight: 0.1, Gen: genCross([]string{"realUDP", "realUDP", "realTCP"}), Check: checkCross})
 }
